@@ -305,6 +305,12 @@ pub mod blocking {
                 builder = builder.tls_config(std::sync::Arc::new(config));
             }
 
+            #[cfg(ipp_verif)]
+            let builder = match crate::verif::blocking_connector() {
+                Some(connector) => builder.tls_connector(connector),
+                None => builder,
+            };
+
             let agent = builder.user_agent(USER_AGENT).build();
 
             let mut req = agent
